@@ -1,7 +1,7 @@
 """C05 - solve() equals the ordered sequence of single-period solves; failures contained."""
 from contracts.c05_solve import SolverDefaults
 from contracts.c05_solve import SolveContract, SolvePeriodContract
-from contracts.c10_labels import FallbackLocator, LocateDispatch
+from contracts.c10_labels import FallbackLocator, LocateDispatch, LocateOnRange
 from props.containers_bounded import LabelAccess
 from props.solve_bounded import SolveTScripted, SolveVsLoop
 from verif.crosscheck import TARGETS as _XT, EncoderCrossCheck
@@ -9,7 +9,7 @@ from verif.spec import PropertySpec
 
 PROPERTY = PropertySpec(
     id='C05',
-    contracts=[SolveContract(), SolvePeriodContract(), LocateDispatch(), FallbackLocator(), SolverDefaults()],
+    contracts=[SolveContract(), SolvePeriodContract(), LocateDispatch(), FallbackLocator(), LocateOnRange(), SolverDefaults()],
     bounded=[SolveTScripted(), LabelAccess(), SolveVsLoop()],
     level='other',
     explanation='SolverMixin.solve (with iter_periods and PeriodIter inlined from source) and solve_period are proved against a ghost '
